@@ -265,6 +265,8 @@ func c18Index(n string) int {
 	return -1
 }
 
+var c18Fuzz func(r *report.Run)
+
 type c18Case struct {
 	Text     string     `json:"text"`
 	Declared []c18Param `json:"declared"`
@@ -520,6 +522,9 @@ func runC18(r *report.Run) {
 	}
 	r.Count("ordered_key_lists", int64(orderings))
 	r.Set("exhaustive_over_key_orderings", true)
+	if r.Thorough() && c18Fuzz != nil {
+		c18Fuzz(r)
+	}
 	for _, c := range c18Malformed() {
 		r.Eval(1)
 		r.Count("malformed_"+c.Expect, 1)
@@ -532,6 +537,8 @@ func runC18(r *report.Run) {
 		}
 	}
 }
+
+func init() { c18Fuzz = func(r *report.Run) { runNativeFuzz(r, "FuzzSvcb", 2000000) } }
 
 func replayC18(r *report.Run, raw json.RawMessage) {
 	var c c18Case
